@@ -386,7 +386,7 @@ def main(argv=None):
                         t = futs[fut]
                         harness_errors.append(f"worker died while running {t[1]} shard {t[2]} (hang watchdog or crash; see out/hang-*.json)")
             finally:
-                ex.shutdown(wait=False, cancel_futures=True)
+                ex.shutdown(wait=not any('worker died' in h for h in harness_errors), cancel_futures=True)
     results.sort(key=lambda r: (r["sub"], r["shard"]))
 
     per_sub = {}
